@@ -229,21 +229,7 @@ func (c *Ctx) errHandling(call ssa.CallInstruction) (string, []ssa.Instruction) 
 		ifi, ok := i.(*ssa.If)
 		return ok && testsNil(ifi.Cond, e)
 	}
-	isRetOfE := func(i ssa.Instruction) bool {
-		ret, ok := i.(*ssa.Return)
-		if !ok {
-			return false
-		}
-		for _, rv := range ret.Results {
-			if flowsTo(e, rv, 0) {
-				return true
-			}
-			if wc, _ := CallOf(rv); wc != nil && strings.Contains(Callee(wc), "errors.Wrap") && flowsTo(e, Arg(wc, 0), 0) {
-				return true
-			}
-		}
-		return false
-	}
+	isRetOfE := func(i ssa.Instruction) bool { return returnsErr(e, i) }
 	q := PathQuery{From: call.(ssa.Instruction), Cut: Or(isNilTest, isRetOfE), Goal: Or(IsReturn, IsPanic),
 		Prune: func(from, to *ssa.BasicBlock) bool {
 			// edge on which e equals a sentinel: handled
@@ -298,19 +284,7 @@ func (c *Ctx) errPropagated(call ssa.CallInstruction) (bool, string) {
 		}
 		// every path from nonNil must hit a return of e before anything else notable
 		q := PathQuery{StartBlock: nonNil, StartPred: b, NonNil: map[ssa.Value]bool{e: true}, Cut: func(i ssa.Instruction) bool {
-			ret, ok := i.(*ssa.Return)
-			if !ok {
-				return false
-			}
-			for _, rv := range ret.Results {
-				if flowsTo(e, rv, 0) {
-					return true
-				}
-				if wc, _ := CallOf(rv); wc != nil && strings.Contains(Callee(wc), "errors.Wrap") && flowsTo(e, Arg(wc, 0), 0) {
-					return true
-				}
-			}
-			return false
+			return returnsErr(e, i)
 		}, Goal: func(i ssa.Instruction) bool {
 			if IsReturn(i) {
 				return true
@@ -518,4 +492,56 @@ func (c *Ctx) wireFind(before bool, event int64, pkg string) []Wire {
 		}
 	}
 	return out
+}
+
+// carriesErr: v hands error e on: it is e, a phi with an operand that carries
+// e, or a wrap/format call one of whose arguments carries e.
+func carriesErr(e, v ssa.Value, d int) bool {
+	if v == nil || d > 6 {
+		return false
+	}
+	if e == v {
+		return true
+	}
+	switch x := v.(type) {
+	case *ssa.Phi:
+		for _, ed := range x.Edges {
+			if ed != v && carriesErr(e, ed, d+1) {
+				return true
+			}
+		}
+	case *ssa.Call:
+		n := Callee(x)
+		if strings.Contains(n, "errors.Wrap") || strings.Contains(n, "errors.WithMessage") || strings.Contains(n, "errors.WithStack") || n == "fmt.Errorf" || strings.HasSuffix(n, "errors.Errorf") {
+			for _, a := range x.Call.Args {
+				if carriesErr(e, a, d+1) {
+					return true
+				}
+				for _, el := range varargElems(a) {
+					if carriesErr(e, el, d+1) {
+						return true
+					}
+				}
+			}
+		}
+	case *ssa.MakeInterface:
+		return carriesErr(e, x.X, d+1)
+	case *ssa.ChangeInterface:
+		return carriesErr(e, x.X, d+1)
+	}
+	return false
+}
+
+// returnsErr: ret hands e back in one of its results.
+func returnsErr(e ssa.Value, i ssa.Instruction) bool {
+	ret, ok := i.(*ssa.Return)
+	if !ok {
+		return false
+	}
+	for _, rv := range ret.Results {
+		if carriesErr(e, rv, 0) {
+			return true
+		}
+	}
+	return false
 }
